@@ -36,8 +36,8 @@ COLLSD = ("colls", "disk", 20, 400, 40, 80)
 
 VIEW = ("view", "mem", 50, 600, 60, 120)
 VIEWD = ("view", "disk", 20, 250, 60, 120)
-VIEWM = ("viewmeta", "mem", 30, 400, 60, 120)
-VIEWMD = ("viewmeta", "disk", 12, 160, 60, 120)
+VIEWM = ("viewmeta", "mem", 70, 400, 110, 140)
+VIEWMD = ("viewmeta", "disk", 20, 160, 110, 140)
 
 LIFE = ("life", "mem", 120, 600, 14, 18)
 LIFE_S = ("life", "mem", 40, 300, 10, 14)     # C20 uses the lifecycle histories only as a sequential background
@@ -78,7 +78,7 @@ PROPS = {
                 what="on-disk histories with close/reopen in-process (restart) compared with the model; and fault enumeration: a child process "
                      "is SIGKILLed at instrumentation points (txn.begin, cas.afterwrite, txn.precommit, txn.committed, post.before, ...) and a "
                      "fresh process reopens and reads everything back"),
-    "C11": dict(modules=["Rosmar.Properties.C11", "Rosmar.Gen.Tie"], slices=[MULTI, MULTID, COLLS, COLLSD], proj=V.proj_all,
+    "C11": dict(modules=["Rosmar.Properties.C11", "Rosmar.Gen.Tie"], slices=[MULTI, MULTID, COLLS, COLLSD, VIEWM], proj=V.proj_all, isolation_search=True,
                 what="every key of every collection re-read after every operation on any collection"),
     "C03": dict(modules=["Rosmar.Properties.C03"], slices=[KV, KVD], proj=V.proj_all,
                 what="forced interleavings of compound calls (Update, WriteUpdateWithXattrs, WriteSubDoc, Incr) with other writers through the "
@@ -153,9 +153,21 @@ def extra_C03(tier, seed, log):
     return cov, viols
 
 
+def extra_C04(tier, seed, log):
+    """Real goroutines: CAS order must be commit order (the CAS is drawn inside the transaction)."""
+    p = V.sh([V.HARNESS, "stress"], env=V.GOENV, timeout=300)
+    lines = [l for l in p.stdout.splitlines() if l.strip()]
+    viols = [{"kind": "stress", "signature": "C04/stress/" + l.split(" ")[1].rstrip(":"), "msg": l, "ops": []}
+             for l in lines if l.startswith(("violation", "error")) and "casorder" in l]
+    return {"stress": [l for l in lines if "casorder" in l]}, viols
+
+
 def extra_C10(tier, seed, log):
-    import crash
-    return crash.run(tier, seed, log)
+    import crash, sched
+    cov, viols = crash.run(tier, seed, log)
+    scov, sviols = sched.run_property("C10", log)
+    cov.update(scov)
+    return cov, viols + sviols
 
 
 def extra_C20(tier, seed, log):
@@ -163,7 +175,7 @@ def extra_C20(tier, seed, log):
     return shutdown.run(tier, seed, log)
 
 
-EXTRA = {"C20": extra_C20, "C10": extra_C10, "C14": extra_C14, "C03": extra_C03, "C13": extra_sched("C13"), "C08": extra_sched("C08"), "C09": extra_sched("C09"), "C15": extra_sched("C15"), "C16": extra_sched("C16"), "C18": extra_sched("C18")}
+EXTRA = {"C04": extra_C04, "C20": extra_C20, "C10": extra_C10, "C14": extra_C14, "C03": extra_C03, "C13": extra_sched("C13"), "C08": extra_sched("C08"), "C09": extra_sched("C09"), "C15": extra_sched("C15"), "C16": extra_sched("C16"), "C18": extra_sched("C18")}
 
 
 def load_lines(path):
@@ -225,6 +237,42 @@ def correspondence(pid, cfg, tier, seed, log):
             if len(divergences) + len(rejections) > 40:
                 break
     return cov, divergences, rejections
+
+
+NO_COLLECTION_OPS = {"begin", "end", "clock", "now", "fire", "purge", "restart", "draw", "expstate"}
+
+
+def isolation_counterexample(ops):
+    """Search for a collection whose calls answer differently when the calls addressed to other collections are removed."""
+    import re
+    from sched import rank_numbers
+    colls = sorted({o.split(" ")[1] for o in ops if len(o.split(" ")) > 1 and re.fullmatch(r"c\d", o.split(" ")[1])})
+    if len(colls) < 2:
+        return None
+    # the clock of the projected run is put, before every call, where it stood in the full run: the same CAS values are drawn, so
+    # calls that name a CAS behave alike and whatever differs is caused by the calls that were left out
+    traced, _ = V.run_impl_replay(ops, "isofull", env={"VERIF_TRACE_HLC": "1"})
+    impl_full, hlc = [], []
+    for l in traced:
+        m = re.search(r" @hlc=(\d+)$", l)
+        hlc.append(m.group(1) if m else None)
+        impl_full.append(l[:m.start()] if m else l)
+    for c in colls:
+        keep = [i for i, o in enumerate(ops) if o.split(" ")[0] in NO_COLLECTION_OPS or (len(o.split(" ")) > 1 and o.split(" ")[1] == c)]
+        proj = [ops[i] + (" @hlc=" + hlc[i] if i < len(hlc) and hlc[i] and ops[i].split(" ")[0] not in ("begin", "end", "restart") else "") for i in keep]
+        impl_proj, _ = V.run_impl_replay(proj, "isoproj")
+        mine = [j for j, i in enumerate(keep) if len(ops[i].split(" ")) > 1 and ops[i].split(" ")[1] == c and ops[i].split(" ")[0] != "lastcas"]
+        # an expiry sweep draws one CAS per expired document of ANY collection inside one call, and collection ids are bucket-wide:
+        # CAS values are compared by their order, ids not at all
+        strip = lambda t: re.sub(r" id=\d+", "", t)
+        a = rank_numbers([strip(impl_full[keep[j]]) if keep[j] < len(impl_full) else "<none>" for j in mine])
+        b = rank_numbers([strip(impl_proj[j]) if j < len(impl_proj) else "<none>" for j in mine])
+        for x, (ra, rb) in enumerate(zip(a, b)):
+            if ra != rb:
+                j = mine[x]
+                return {"coll": c, "full": ops, "projected": proj, "got_full": ra[:600], "got_proj": rb[:600],
+                        "msg": "`%s` answers differently when the calls addressed to other collections are left out" % ops[keep[j]][:120]}
+    return None
 
 
 def replay_file(pid, kind, ops, detail):
@@ -294,6 +342,16 @@ def decide(pid, tier, seed, t0):
             line = first_divergence(small, impl, model, cfg["proj"])
             rej = mon(small, impl) if mon else []
             rej = [x for x in rej if signature(pid, x["rule"], small, x["line"]) not in known_sigs]
+            if not rej and cfg.get("isolation_search"):
+                # C11 is a statement about independence: project the history onto one collection (dropping every call addressed to
+                # another one) and run both on the real code - what that collection returns must be the same, CAS values up to their order
+                iso = isolation_counterexample(d["ops"])
+                if iso is not None:
+                    found = replay_file(pid, "history", iso["full"], {"monitor_rule": "C11.other-collections-do-not-matter", "message": iso["msg"],
+                                                                        "projected_history": iso["projected"], "collection": iso["coll"],
+                                                                        "with_other_collections": iso["got_full"], "without": iso["got_proj"]})
+                    violations.append(("history", found, "C11.other-collections-do-not-matter: " + iso["msg"], False))
+                    break
             if not rej and mon and cfg.get("closing"):
                 # the property speaks about the end of a history (e.g. "taken together, its runs deliver..."): complete the shrunk
                 # history the way the generator ends its programs, then ask the monitor again
